@@ -411,23 +411,19 @@ func c01walk(c *Ctx) {
 		for range reach.Returns() {
 			escaped = true
 		}
-		// the used walk sits in a loop whose test the explorer cannot decide: accept an exit only through that loop's header
-		if t.fn == "updateGroupDeltaUsedNoLock" && found {
-			escaped = false
-			r2 := an.Explore(fn, nil, f, func(in ssa.Instruction) bool {
-				if cl, ok := in.(ssa.CallInstruction); ok && an.ShortCallee(cl.Common()) == want {
-					return true
+		// the used walk sits in a loop whose test the explorer cannot decide: no exit may be reachable before the loop of the
+		// walk is entered (what happens inside the loop is WALK(used))
+		if t.fn == "updateGroupDeltaUsedNoLock" {
+			escaped, found = true, false
+			for _, cl := range an.Calls(fn, false) {
+				if an.ShortCallee(cl.Common()) != want {
+					continue
 				}
-				// stop at the loop test of the walk
-				if bo, ok := in.(*ssa.BinOp); ok && bo.Op == token.LSS {
-					if _, isPhi := bo.X.(*ssa.Phi); isPhi {
-						return true
-					}
+				found = true
+				if hdr := an.InnermostLoopHeader(cl.Block()); hdr != nil {
+					r2 := an.Explore(fn, nil, f, func(in ssa.Instruction) bool { return in.Block() == hdr })
+					escaped = len(r2.Returns()) > 0
 				}
-				return false
-			})
-			for range r2.Returns() {
-				escaped = true
 			}
 		}
 		r.Check(len(f) > 0 && found && !escaped, "WALK", fkey(fn)+"/not-skippable", c.Pos(fn.Pos()), "the walk runs for every non-empty path", "the walk can be skipped for a group with a non-empty path (an exit that depends on the amounts, e.g. 'nothing to propagate'): after a tree rebuild a non-lending group without pods keeps request {} instead of min, and its ancestors lose that share")
